@@ -1610,6 +1610,10 @@ def preprocess_arg(arg: ColExpr, table: Table, *, agg_is_window: bool = True) ->
             return table[expr.name]
 
         new = copy.copy(expr)
+        if isinstance(new, Col) and not eval_aligned:
+            # The reference may be older than the table: a column that was constant
+            # in an operand of a `union` is an ordinary column of the result.
+            new._dtype = table._cache.cols[new._uuid]._dtype
         if (
             agg_is_window
             and isinstance(new, ColFn)
